@@ -53,7 +53,8 @@ def _rand_locus(rng, genome):
         return str(rng.randint(1, 22)), s, s + rng.randint(10, 5_000_000)
     base = "X" if kind < 0.75 else "Y"
     g = genome if genome != "none" else rng.choice(["grch37", "grch38"])
-    lo, hi = rng.choice(PAR[g][base])
+    # place the bin by this chromosome's PAR table or (cross-table) by the other chromosome's
+    lo, hi = rng.choice(PAR[g][base] + PAR[g]["Y" if base == "X" else "X"])
     m = rng.random()
     if m < 0.3:            # inside the PAR
         s = rng.randint(lo, hi - 20)
@@ -125,6 +126,10 @@ def _bump_boundaries(ctx, rec, row):
             ctx.bump("par_inside" if inside else "par_outside")
             if any(s in (lo - 1, lo) and e in (hi, hi + 1) for lo, hi in PAR[rec["genome"]][base]):
                 ctx.bump("par_edge_exact_or_one_base_off")
+            other = any(s >= lo and e <= hi for lo, hi in PAR[rec["genome"]]["Y" if base == "X" else "X"])
+            if other != inside:
+                ctx.bump("cross_table_locus_inside_other_table_only" if other else
+                         "cross_table_locus_inside_own_table_only")
 
 
 def run(ctx: Ctx):
@@ -136,13 +141,14 @@ def run(ctx: Ctx):
                 "rows, judged row by row), and `cnvkit.py call -m clonal` through parse_args/_cmd_call and files for a "
                 "seeded sample of enumerated configurations. A case is distinct by (op, configuration, rows); "
                 "non-trivial when the premise holds.")
-    all16 = tuple(range(1, 17))
-    purities = tuple(range(1, 14)) if thorough else (1, 5, 9, 10, 11, 13)
+    all_loci = tuple(range(1, 29))      # 17..28: cross-table loci (only enumerated with a PAR genome)
+    # quick: 1/10, 1, 1/3, 99/100 (purity 1 exactly and just below are boundary inputs); thorough: the whole grid
+    purities = tuple(range(1, 14)) if thorough else (1, 10, 11, 13)
     records = []
     # ---- direction 1: mixing model
     cfg = ctx.cfg("mc-mix", spec="Spec", invariants=["DesignOK"], constants=K.mc_constants(
         ops=["clonal_mix"], nmax=12, purity_idx=purities, ploidies=range(1, 7), genos=("none", "grch37", "grch38"),
-        locus_idx=all16))
+        locus_idx=all_loci))
     r, mix_inputs = K.mc_inputs(ctx, cfg, tag="mix")
     mix_rows = _flatten(ctx.execute(K.execute_split, K.batch_inputs(mix_inputs)))
     # all n >= 1 of one locus under one configuration form one record, n = 0 (ratio 0 when x = 0 or p = 1) another
@@ -169,8 +175,10 @@ def run(ctx: Ctx):
     # this run is separate from the dumped one; a violation is information: DESIGN-COUNTEREXAMPLE)
     cfg = ctx.cfg("mc-any-design", spec="Spec", invariants=["DesignNonNeg"], constants=any_consts)
     ctx.mc("MC_Calling", cfg, dump=False, timeout=1200)
-    ctx.exhaustive = (f"n 0..12 x {len(purities)} purities x ploidy 1..6 x 16 loci (autosome, X, Y, PAR1/PAR2 of X and Y "
-                      "for grch37 and grch38: exact, one base off, interior) x reference sex x sample sex x naming x "
+    ctx.exhaustive = (f"n 0..12 x {len(purities)} purities x ploidy 1..6 x 28 loci (autosome, X, Y, PAR1/PAR2 of X and Y "
+                      "for grch37 and grch38: exact, one base off, interior; with a PAR genome also 12 cross-table loci: "
+                      "bins strictly between the X- and Y-table boundaries and bins on one chromosome placed by the other "
+                      "chromosome's PAR coordinates) x reference sex x sample sex x naming x "
                       "{no PAR genome, grch37, grch38}; no-purity grid of 104 ratios (eighths to 5, non-dyadic values, 1e-6 "
                       "either side of every rounding boundary for r = 1..6); 8 arbitrary ratios 2^-10..2^10 x purity "
                       "{none, 1/10, 1/2, 1, 1/3, 99/100} -- every dumped state replayed")
